@@ -10,10 +10,14 @@ import json
 import geoh5py.shared.utils as _U
 
 
+_REAL_NP = _U.np
+
+
 class _NP:
-    """pure-Python stand-in for the single numpy call on this path (np.isfinite in inf2str): listed stub"""
-    nan = _U.np.nan
-    inf = _U.np.inf
+    """pure-Python stand-ins for the scalar numpy predicates on this path (np.isfinite in inf2str; isinf / isnan in case
+    a refactor uses them); everything else is the real numpy: listed stub"""
+    nan = _REAL_NP.nan
+    inf = _REAL_NP.inf
 
     @staticmethod
     def isfinite(x):
@@ -21,8 +25,23 @@ class _NP:
             return True
         return not (x != x or x == float("inf") or x == float("-inf"))
 
+    @staticmethod
+    def isinf(x):
+        if isinstance(x, int):
+            return False
+        return x == float("inf") or x == float("-inf")
 
-_U.np = _NP
+    @staticmethod
+    def isnan(x):
+        if isinstance(x, int):
+            return False
+        return x != x
+
+    def __getattr__(self, name):
+        return getattr(_REAL_NP, name)
+
+
+_U.np = _NP()
 import geoh5py.ui_json.utils as _UU
 
 
@@ -339,6 +358,30 @@ def form_object_roundtrip_value_and_enabled(vi: int, has_opt: bool, optional: bo
 ''', "a whole object form keeps its data value and enabled state through "
      "demote -> stringify -> numify, for all optional/enabled/groupOptional switch combinations", timeout=90,
          exclusions={"F-C14-3": "has_group_opt and (group_enabled != (enabled if has_opt else True))"}),
+
+    Cond("data_or_value_routing_roundtrip", '''
+def data_or_value_routing_roundtrip(start_is_value: bool, give_uuid: bool, ui: int, has_opt: bool, enabled: bool) -> bool:
+    """
+    pre: 0 <= ui < 2
+    post: _
+    """
+    import uuid as _uuid
+    form = {"label": "lbl", "value": 100.0, "isValue": start_is_value, "property": None if start_is_value else UUIDS[1],
+            "parent": "obj", "association": "Vertex", "dataType": "Float"}
+    if has_opt:
+        form["optional"] = True
+        form["enabled"] = enabled
+    d0 = {"title": "t", "obj": {"label": "o", "value": UUIDS[0], "meshType": [UUIDS[1]]}, "p": form}
+    a = InputFile(ui_json=deepcopy(d0), validate=False)
+    new = _uuid.UUID(UUIDS[ui]) if give_uuid else 2.5
+    a.update_ui_values({"p": new})
+    if a.ui_json["p"]["isValue"] != (not give_uuid):
+        return False
+    back = _write_read(a.ui_json)
+    b = InputFile(ui_json=deepcopy(back), validate=False)
+    return b.data["p"] == new and b.ui_json["p"]["isValue"] == (not give_uuid)
+''', "a data-or-value form given an identifier switches to property mode (a number switches to value mode) and reads back the "
+     "same value after the round trip", timeout=90),
 
     Cond("disabled_parameter_reads_none_and_stays_disabled", '''
 def disabled_parameter_reads_none_and_stays_disabled(vi: int, enabled: bool, new_none: bool) -> bool:
